@@ -30,8 +30,32 @@ def discharge(ob, timeout_ms=10000):
     if dump and dump in ob.id:
         with open(os.path.join(os.environ.get("PYVC_DUMP_DIR", "/tmp"), ob.id.replace("/", "_") + ".smt2"), "w") as f:
             f.write("(set-logic ALL)\n" + s.to_smt2())
+    # portfolio, in sequence: z3 briefly (most obligations take milliseconds) -> cvc5 on the same SMT-LIB text (much better on the
+    # heap-frame obligations with many quantified axioms) -> z3 again with the full budget.  `unknown` only if all three give up.
+    quick = min(2000, timeout_ms)
+    s.set("timeout", quick)
     r = s.check()
     ob.backend = "z3-" + z3.get_version_string()
+    if r == z3.unknown:
+        for stage in ("cvc5-short", "z3-full", "cvc5-full"):
+            if stage.startswith("cvc5"):
+                budget = min(4000, timeout_ms) if stage == "cvc5-short" else timeout_ms
+                if stage == "cvc5-full" and timeout_ms <= 4000:
+                    continue
+                r2 = _cvc5(s, budget)
+                if r2 == "unsat":
+                    ob.result, ob.backend = "discharged", "cvc5-1.0.3"
+                    ob.seconds = time.time() - t0
+                    return ob
+                if r2 == "sat":
+                    ob.result, ob.backend = "refuted", "cvc5-1.0.3"
+                    ob.seconds = time.time() - t0
+                    return ob
+            elif timeout_ms > quick:
+                s = _solver(ob.pc, ob.goal, timeout_ms)
+                r = s.check()
+                if r != z3.unknown:
+                    break
     if r == z3.unsat:
         ob.result = "discharged"
     elif r == z3.sat:
@@ -41,15 +65,8 @@ def discharge(ob, timeout_ms=10000):
         except Exception:
             ob.model = None
     else:
-        # second opinion
-        r2 = _cvc5(s, timeout_ms)
-        if r2 == "unsat":
-            ob.result, ob.backend = "discharged", "cvc5-1.0.3"
-        elif r2 == "sat":
-            ob.result, ob.backend = "refuted", "cvc5-1.0.3"
-        else:
-            ob.result = "unknown"
-            ob.note = (ob.note + " " if ob.note else "") + f"z3: {s.reason_unknown()}"
+        ob.result = "unknown"
+        ob.note = (ob.note + " " if ob.note else "") + f"z3: {s.reason_unknown()}"
     ob.seconds = time.time() - t0
     return ob
 
